@@ -1068,6 +1068,78 @@ func runGROWSHRINK(c *Ctx) {
 		}
 		return false, ""
 	}
+	// (3) what the shrink loop asks about the root's keys is "are there none": among the outcomes that are sufficient
+	// for the level-removing call, the one that looks at the number of keys holds only when that number is 0
+	if holder, tcs := holderOf(del, shrink); holder != nil {
+		tcall := tcs.(ssa.Instruction)
+		for _, f := range sufficient(holder, tcall) {
+			for _, g := range necessary([]ir.Fact{f}, 0) {
+				bin, ok := g.Cond.(*ssa.BinOp)
+				if !ok {
+					continue
+				}
+				var k int64
+				var isK, lenLeft bool
+				for side, o := range []ssa.Value{bin.X, bin.Y} {
+					call, isCall := o.(*ssa.Call)
+					if !isCall {
+						continue
+					}
+					if bi, isB := call.Call.Value.(*ssa.Builtin); !isB || bi.Name() != "len" {
+						continue
+					}
+					if _, fld, ok := nodeSliceRoot(call.Call.Args[0]); !ok || fld != "Key" {
+						continue
+					}
+					other := bin.Y
+					if side == 1 {
+						other = bin.X
+					}
+					k, isK = ir.ConstInt(other)
+					lenLeft = side == 0
+				}
+				if !isK {
+					continue
+				}
+				op := bin.Op
+				if !lenLeft {
+					switch op {
+					case token.LSS:
+						op = token.GTR
+					case token.GTR:
+						op = token.LSS
+					case token.LEQ:
+						op = token.GEQ
+					case token.GEQ:
+						op = token.LEQ
+					}
+				}
+				if !g.Truth {
+					switch op {
+					case token.LSS:
+						op = token.GEQ
+					case token.GEQ:
+						op = token.LSS
+					case token.LEQ:
+						op = token.GTR
+					case token.GTR:
+						op = token.LEQ
+					case token.EQL:
+						op = token.NEQ
+					case token.NEQ:
+						op = token.EQL
+					}
+				}
+				keyless := (op == token.EQL && k == 0) || (op == token.LEQ && k == 0) || (op == token.LSS && k == 1)
+				if keyless {
+					c.OK(P.InstrPos(bin), "Delete shrinks when the top layer has no key", "len(root.Key) "+op.String()+" "+fmt.Sprint(k)+" is sufficient for the level-removing call", false)
+				} else {
+					c.Violation(del, P.InstrPos(bin), "shrink loop's key test is not 'the root has no key'",
+						fmt.Sprintf("the level-removing call is reached when len(root.Key) %s %d: a level is removed although the top layer still has keys (or kept although it has none), so the height after deletions differs from the height of a tree built from the same entries — equal contents, different roots", op, k))
+				}
+			}
+		}
+	}
 	if ok, how := consults(ins, grow, false); ok {
 		c.OK(P.Pos(ins.Pos()), "Insert's growth loop consults the root's keys", how, false)
 	} else {
